@@ -117,7 +117,10 @@ func genPool(seed uint64, idx uint64, thorough bool) tlive.Scenario {
 				n := r.Range(1, 3)
 				for i := 0; i < n; i++ {
 					d := int64(r.Range(500, 4000))
-					if sc.IdleUs > 0 && r.Chance(1, 3) {
+					if r.Chance(1, 40) {
+						// a delay of 1.5 .. 1.9 s: whatever a dispatcher does differently for distances above a second
+						d = int64(r.Range(1500, 1900)) * 1000
+					} else if sc.IdleUs > 0 && r.Chance(1, 3) {
 						// not so near: further away than the idle timeout (1.1 .. 2.5 of it), still ahead of any far one
 						d = sc.IdleUs * int64(r.Range(11, 25)) / 10
 					}
